@@ -285,16 +285,22 @@ parts = [
      extra=REP_RULES),
   # REP send_multipart(): the MORE-flag loop uses iter_mut().enumerate() (outside Verus); the critical section is a region
   Region(REP, "send_take_request", "send_multipart", r"let peer_to_reply_to = \{", r"let conn_iface: Arc<dyn ISocketConnection> = \{",
-         sig="fn send_take_request(&mut self) -> (r: Result<PeerInfo, ZmqError>)", tail="Ok(peer_to_reply_to)",
+         sig="fn send_take_request(&mut self, user_payload_frames: &FrameBatch) -> (r: Result<PeerInfo, ZmqError>)", tail="Ok(peer_to_reply_to)",
          impl=REP_IMPL, emit_impl="impl RepSocket",
          ensures=[
            ("C10:reply_takes_the_pending_request_atomically",
             "r matches Ok(p) ==> rep_one_write(old(self), final(self)) && final(self).log@.last().0 == RepState::ReceivedRequest(p) && final(self).log@.last().1 is ReadyToReceive"),
            ("C10:send_out_of_turn_is_invalid_state_and_changes_nothing",
-            "r is Err ==> (r matches Err(ZmqError::InvalidState(_))) && rep_only_identity_writes(old(self), final(self)) && rep_first_seen(old(self), final(self)) is ReadyToReceive"),
-           ("C10:send_in_turn_proceeds", "rep_first_seen(old(self), final(self)) is ReceivedRequest ==> r is Ok"),
+            "r is Err ==> ((r matches Err(ZmqError::InvalidState(_))) || (r matches Err(ZmqError::InvalidMessage(_)))) && rep_only_identity_writes(old(self), final(self))"),
+           ("C10:invalid_state_only_out_of_turn", "r matches Err(ZmqError::InvalidState(_)) ==> rep_first_seen(old(self), final(self)) is ReadyToReceive"),
+           # a reply that cannot fit one message together with the request's routing envelope is refused and the request stays pending
+           ("C02+C10:oversized_reply_is_refused_and_the_request_stays_pending", "r matches Err(ZmqError::InvalidMessage(_)) ==> rep_no_write(old(self), final(self)) && rep_first_seen(old(self), final(self)) is ReceivedRequest"),
+           ("C02:accepted_reply_fits_one_message_with_its_envelope", "r matches Ok(p) ==> p.routing_prefix@.len() + user_payload_frames@.len() <= 255"),
+           ("C10:send_in_turn_proceeds", "rep_first_seen(old(self), final(self)) matches RepState::ReceivedRequest(q) && q.routing_prefix@.len() + user_payload_frames@.len() <= 255 ==> r is Ok"),
          ],
-         extra=[INVALID, ("R6h", "std::mem::replace(&mut *guard, RepState::ReadyToReceive)", "self.verif_state_replace(RepState::ReadyToReceive)", 1)] + guard_rules(["guard"])),
+         extra=[INVALID, ("R2", re.compile(r'ZmqError::InvalidMessage\(\s*"([^"]*)"\.into\(\)\s*\)', re.S), r'ZmqError::InvalidMessage(verif_fmt())', "*", "pre"),
+                ("R5", "FrameBatch::MAX_FRAMES", "255", "*"),
+                ("R6h", "std::mem::replace(&mut *guard, RepState::ReadyToReceive)", "self.verif_state_replace(RepState::ReadyToReceive)", 1)] + guard_rules(["guard"])),
   Scan(REP, "send_multipart", r"self\.state\b", 1, impl=REP_IMPL, why="the only access is inside the region"),
 ]
 
